@@ -499,6 +499,7 @@ func c07Adapter(c *Ctx) {
 func runC18(c *Ctx) {
 	c18DialRetry(c)
 	c18ConnectLoop(c)
+	c18ListenerLifetime(c)
 	p := c.P
 	c.floor("C18.R1", 2)
 	// ---- R1 ----
@@ -1632,6 +1633,100 @@ func c18DialRetry(c *Ctx) {
 		}
 	}
 	c.check(bad == "" && n > 0, "C18.R7", fnName(fn)+"/transport-failures-retryable", dial.Pos(), "every failure without an HTTP response is wrapped in RetryableError", bad)
+}
+
+// c18ListenerLifetime (C18.R9, C18.R10): what lets a listener notice a lost node
+// and keep reconnecting. R9: the context that ends the listener's reconnect loop
+// (listener.closeCtx) is rooted in context.Background(), not in a caller's
+// context - callers pass a connect-timeout context to Listen, and a listener
+// tied to it stops reconnecting once that context has expired. R10: yamux
+// keep-alives are never switched off in the module: they are the only way either
+// side notices a peer that vanished without a FIN/RST.
+func c18ListenerLifetime(c *Ctx) {
+	p := c.P
+	closeF := p.Field("client", "listener", "closeCtx")
+	if closeF == nil {
+		c.fail("C18.anchor", "client.listener.closeCtx", token.NoPos, "not found")
+		return
+	}
+	var rooted func(v ssa.Value, d int) (bool, string)
+	rooted = func(v ssa.Value, d int) (bool, string) {
+		v = strip(v)
+		if d > 6 {
+			return false, "too deep"
+		}
+		switch x := v.(type) {
+		case *ssa.Extract:
+			return rooted(x.Tuple, d+1)
+		case *ssa.Call:
+			switch commonName(&x.Call) {
+			case "context.Background", "context.TODO":
+				return true, ""
+			case "context.WithCancel", "context.WithTimeout", "context.WithDeadline", "context.WithValue", "context.WithoutCancel":
+				if commonName(&x.Call) == "context.WithoutCancel" {
+					return true, ""
+				}
+				return rooted(x.Call.Args[0], d+1)
+			}
+			return false, "the result of " + commonName(&x.Call)
+		case *ssa.Parameter:
+			return false, "the caller's context (parameter " + x.Name() + ")"
+		case *ssa.UnOp:
+			if al, ok := x.X.(*ssa.Alloc); ok {
+				if sv, _ := singleStore(al); sv != nil {
+					return rooted(sv, d+1)
+				}
+			}
+		}
+		return false, path(v)
+	}
+	n := 0
+	for _, st := range p.storesToField(closeF, false) {
+		s2, ok := st.Instr.(*ssa.Store)
+		if !ok {
+			continue
+		}
+		n++
+		good, why := rooted(s2.Val, 0)
+		c.check(good, "C18.R9", fnName(st.Fn)+"/close-context-rooted-in-background", st.Instr.Pos(), "closeCtx derives from context.Background() only",
+			"the listener's lifetime context derives from "+why+": when that context ends (a connect timeout that has long expired) the listener reports closed instead of reconnecting after its node is lost")
+	}
+	if n == 0 {
+		c.fail("C18.R9", "closeCtx-stores", token.NoPos, "no store to listener.closeCtx found")
+	}
+	// R10
+	defaults := 0
+	for _, fn := range p.ModFuncs {
+		if isTestFile(p.Fset, fn.Pos()) {
+			continue
+		}
+		allInstrs(fn, func(i ssa.Instruction) {
+			if cl, ok := i.(*ssa.Call); ok && strings.HasSuffix(commonName(&cl.Call), "/yamux.DefaultConfig") {
+				defaults++
+			}
+			fa, ok := i.(*ssa.FieldAddr)
+			if !ok {
+				return
+			}
+			pt, ok := fa.X.Type().Underlying().(*types.Pointer)
+			if !ok || !strings.HasSuffix(pt.Elem().String(), "/yamux.Config") {
+				return
+			}
+			fv, _ := fieldVarOf(fa)
+			if fv.Name() != "EnableKeepAlive" {
+				return
+			}
+			for _, r := range *fa.Referrers() {
+				if st, ok := r.(*ssa.Store); ok && st.Addr == ssa.Value(fa) {
+					on, isK := constBool(st.Val)
+					c.check(isK && on, "C18.R10", fnName(fn)+"/yamux-keepalive-stays-on", st.Pos(), "EnableKeepAlive is left at its default (true)",
+						"yamux keep-alives are switched off (or made conditional): a node or listener that disappears without closing the connection is never noticed, so the listener never reconnects to a survivor and the server never deregisters it")
+				}
+			}
+		})
+	}
+	c.check(defaults >= 2, "C18.R10", "yamux-configs-from-defaults", token.NoPos, fmt.Sprintf("%d session configurations start from yamux.DefaultConfig()", defaults),
+		fmt.Sprintf("expected the client and the server session configurations to start from yamux.DefaultConfig() (keep-alive on), found %d", defaults))
 }
 
 // c18ConnectLoop (C18.R8): the client's connect loop gives up only for a local
